@@ -102,7 +102,7 @@ def cases(tier, rng):
 def nontrivial(case, out):
     return ('c_chord' in case or 'c_block_by' in case or 'm_accumulate' in case) and 'SFired' in out
 
-STAGES = [dict(name='visibility', mode='app', coq='Check.C13c', profile=('Proofs.JudgeC13bP', 'JudgeC13bP.profile_C13b', 'C13_app_judgement_sound (all clauses; no transfer theorem)'), cases=cases, nontrivial=nontrivial, shard=25,
+STAGES = [dict(name='visibility', mode='app', coq='Check.C13c', profile=('Proofs.JudgeC13bP', 'JudgeC13bP.profile_C13b', 'C13_app_judgement_sound / C13_app_judgement_transfer'), cases=cases, nontrivial=nontrivial, shard=25,
                exhaustive={'thorough': True, 'quick': True},
                rule='one context (exclusive, or shared with two holders) with 2-4 actions in every binding order (6 / 24 permutations), chord / block-by / events-only block-by / accumulate-by references '
                     'forwards, backwards, to self and to an action absent from the context, some action bound a second time in the middle, bindings with and without modifier keys, actions with two references (two blockers looking at different actions); scripted states over 6-12 frames; in the shared variant one holder may leave in mid-run. Every instrumented condition and '
